@@ -83,6 +83,51 @@ theorem numberChecks_spec (counter : Int) (items : List (Item Vals)) :
         have hk' : k < (numberChecks (seqOf counter cd + 1) r).length := by rw [ihr.1]; exact hk
         exact ihr.2 k hk hk'
 
+/-- what "numbered consistently with sequence number `s`" means for a return item -/
+def ReturnNumbered (s : Int) (it : Item Vals) : Prop :=
+  it.detail.s "EceInstitutionItemSequenceNumber" = itoa s ∧
+  (∀ i (h : i < it.addA.length), (it.addA[i]).i "RecordNumber" = ((i % 9 + 1 : Nat) : Int) ∧
+      (it.addA[i]).s "BOFDItemSequenceNumber" = itoa s) ∧
+  (∀ i (h : i < it.addD.length), (it.addD[i]).i "RecordNumber" = ((i % 99 + 1 : Nat) : Int) ∧
+      (it.addD[i]).s "EndorsingBankItemSequenceNumber" = itoa s)
+
+/-- **return items**: numbered like check items - addenda A and D carry 1, 2, 3, … and the number of
+their item, a supplied number keeps its value, the counter continues from it -/
+theorem numberReturns_spec (counter : Int) (items : List (Item Vals)) :
+    (numberReturns counter items).length = items.length ∧
+    ∀ i (h : i < items.length) (h' : i < (numberReturns counter items).length),
+      ∃ s, ReturnNumbered s ((numberReturns counter items)[i]) ∧
+        (¬ (items[i].detail.s "EceInstitutionItemSequenceNumber").isEmpty →
+          s = parseNum (items[i].detail.s "EceInstitutionItemSequenceNumber")) := by
+  induction items generalizing counter with
+  | nil => simp [numberReturns]
+  | cons rd r ih =>
+    have ihr := ih (seqOf counter rd + 1)
+    constructor
+    · simp only [numberReturns, List.length_cons, ihr.1]
+    · intro i h h'
+      cases i with
+      | zero =>
+        simp only [numberReturns, List.getElem_cons_zero]
+        refine ⟨seqOf counter rd, ⟨?_, ?_, ?_⟩, ?_⟩
+        · simp
+        · intro j hj
+          have hlen : j < rd.addA.length := by simpa [zipSet, recNums] using hj
+          rw [zipSet_getElem _ _ 9 j hj hlen]
+          simp
+        · intro j hj
+          have hlen : j < rd.addD.length := by simpa [zipSet, recNums] using hj
+          rw [zipSet_getElem _ _ 99 j hj hlen]
+          simp
+        · intro hne
+          have hne' : ¬ (rd.detail.s "EceInstitutionItemSequenceNumber").isEmpty = true := hne
+          simp [seqOf, hne']
+      | succ k =>
+        simp only [numberReturns, List.getElem_cons_succ]
+        have hk : k < r.length := by simpa using h
+        have hk' : k < (numberReturns (seqOf counter rd + 1) r).length := by rw [ihr.1]; exact hk
+        exact ihr.2 k hk hk'
+
 /-- **bundles are numbered 1..n** (and the build keeps their number and order) -/
 theorem buildBundles_numbers (m : Model) (n : Nat) (bs bs' : List (Bundle Vals))
     (h : buildBundles m n bs = .ok bs') :
